@@ -103,7 +103,7 @@ claim("C16", "taint/dominance of the import-path sanitiser with symbolic evaluat
       "path.Clean and a dominating rejecting branch whose condition rejects every shape an escaping cleaned relative path can take (.., ../x, "
       "../../x); (R16b) root imports read rootPath + / + … from findRootFromModule; (R16c) no lost wake-up in the import cache; (R16d) a cyclic import "
       "re-enters getOrAdd with no owner test (genuine hang, known finding); (R16e) the module-root cache is written only on the true branch of the "
-      "sentinel test of the stored root; (R16f) after the confinement check the path is only trimmed, prefixed, joined, cleaned or has text "
+      "sentinel test of the stored root; (R16g) an import-cache key depends on every string input its add callback uses; (R16f) after the confinement check the path is only trimmed, prefixed, joined, cleaned or has text "
       "removed - never rewritten by a step that can introduce separators. Which other strings the sanitiser lets through (whitespace, absolute "
       "forms), symlinks and equal values across spellings are not decided.", NOTE, "DESIGN.md §3 C16")
 
